@@ -18,6 +18,7 @@ fn main() {
         "diff-aggregate" => Box::new(fam::diff::Diff::new("aggregate")),
         "diff-ownership" => Box::new(fam::diff::Diff::new("ownership")),
         "diff-effects" => Box::new(fam::diff::Diff::new("effects")),
+        "survive" => Box::new(fam::survive::Survive::new(&args)),
         "corpus" => Box::new(fam::corpus::Corpus::new(&args)),
         f => {
             eprintln!("unknown family {f}");
